@@ -1026,8 +1026,11 @@ def _copy_tree(v):
 def _helper_for(ast, fn, c, stack):
     if c.k == "call" and isinstance(c.get("func"), Node) and c["func"].k == "path":
         nm = c["func"]["path"]
+        ty_ = None
         if nm.startswith("Self::"):
             nm = nm[6:]
+        elif nm.count("::") == 1 and nm.split("::")[0][:1].isupper():
+            ty_, nm = nm.split("::")           # `Type::helper(..)`: an associated function of a type of this file
         if "::" in nm:
             return None
         want_self = False
@@ -1041,6 +1044,10 @@ def _helper_for(ast, fn, c, stack):
     if want_self:
         impl_of = lambda f: [n.split(" as ")[0] for kind, n in f.container if kind == "impl"]
         cands = [g for g in cands if impl_of(g)[-1:] == impl_of(fn)[-1:] or len(cands) == 1]
+    elif c.k == "call" and ty_ is not None:
+        cands = [g for g in cands if [re.sub(r"<.*", "", n.split(" as ")[0]).strip() for kind, n in g.container if kind == "impl"][-1:] == [ty_]]
+    elif c.k == "call":
+        cands = [g for g in cands if not any(kind == "impl" for kind, n in g.container) or c["func"]["path"].startswith("Self::")]
     cands = [g for g in cands if not any(kind == "impl" and " as " in n for kind, n in g.container[-1:])]   # trait methods are interfaces, not extracted helpers
     if len(cands) != 1:
         return None
